@@ -177,3 +177,50 @@ func VerifH_C20_reject() {
 	vapi.Assert("reject.foreign-token", err != nil)
 	vapi.Reach("rejected")
 }
+
+// VerifH_C20_whitespace: the words of a phrase separated by any run of
+// whitespace decode exactly as when separated by single spaces.
+//
+//verif:harness prop=C20 tier=quick replay=native require=same-accepted,same-rejected nowitness=same-accepted bounds="all 2048^12 word tuples; separator one of: 2 spaces, tab, LF, CRLF, CR, VT, FF, U+0085, U+00A0, U+3000, space+tab"
+func VerifH_C20_whitespace() {
+	words := make([]string, 12)
+	for i := range words {
+		k := vapi.UBits("word", 11)
+		words[i] = bip39EnglishWordList[k]
+	}
+	seps := []string{"  ", "\t", "\n", "\r\n", "\r", "\v", "\f", "\u0085", " ", "　", " \t"}
+	sep := seps[vapi.Int("separator", 0, len(seps)-1)]
+	var canon, got [16]byte
+	errCanon := decodeBIP39Phrase(&canon, strings.Join(words, " "))
+	errGot := decodeBIP39Phrase(&got, strings.Join(words, sep))
+	vapi.Assert("whitespace.same-verdict", (errCanon == nil) == (errGot == nil))
+	if errCanon == nil {
+		vapi.Reach("same-accepted")
+		vapi.Assert("whitespace.same-entropy", got == canon)
+	} else {
+		vapi.Reach("same-rejected")
+	}
+}
+
+// VerifH_C20_derive_state: "the same phrase and index always derive the same
+// key" also when several derivations run at once: the derivation and the
+// phrase codec keep no state in package-level variables (a sequential check
+// cannot see a scratch buffer that is filled and wiped again within one call;
+// the executor records every write to a package-level variable instead).
+//
+//verif:harness prop=C20 tier=quick replay=interp require=derived bounds="all seeds, indices and entropies; writes to package-level variables of package wallet during KeyFromSeed, SeedFromPhrase, NewSeedPhrase-style encode/decode"
+func VerifH_C20_derive_state() {
+	seed := vapi.Bytes32("seed")
+	idx := vapi.U64("index")
+	e := verifEntropy("e")
+	vapi.WatchGlobals("coreutils/wallet")
+	_ = KeyFromSeed(&seed, idx)
+	vapi.Assert("state.key-derivation-writes-no-shared-state", vapi.WatchedWrites() == "")
+	phrase := encodeBIP39Phrase(&e)
+	var back [16]byte
+	_ = decodeBIP39Phrase(&back, phrase)
+	var s2 [32]byte
+	_ = SeedFromPhrase(&s2, phrase)
+	vapi.Assert("state.phrase-codec-writes-no-shared-state", vapi.WatchedWrites() == "")
+	vapi.Reach("derived")
+}
